@@ -143,7 +143,7 @@ struct Executor {
         } else if (!d.inside) return fc;
         gen_payload(fc);
         if (f.codec == C_LDPC) fc.code = h5170(f.k, f.r, f.N1, f.pseed);
-        else if (f.codec == C_2D) fc.code = twod_model(f.k, f.r);
+        else if (f.codec == C_2D) { fc.code = probe_2d(f); if (!fc.code) { fc.src.clear(); return fc; } }
         fc.ref_rep.assign(f.r, {}); fc.ref_have.assign(f.r, 0);
         if (fc.code) {
             std::vector<const uint8_t *> sp(f.k);
@@ -159,6 +159,75 @@ struct Executor {
         }
         fc.ok = true;
         return fc;
+    }
+
+    // Codec 5: which repair symbol protects which sources is the implementation's choice, so the equations are read
+    // off a probe encoder session fed with an identity payload, and then checked to BE a d x l product single-parity
+    // code (C16 "structure"): two families of checks, each partitioning the sources, every row check meeting every
+    // column check in exactly one source.
+    std::shared_ptr<const BinCode> probe_2d(const Flow &f) {
+        const int sid = -100 - f.id;
+        void *h = nullptr;
+        cur_op = cur_op < 0 ? 0 : cur_op;
+        if (g_status) { g_status->ses_codec = C_2D; strncpy((char *)g_status->what, "probe-2d", sizeof(g_status->what) - 1); g_status->corrupt = 0; g_status->in_call = 1; }
+        if (ad_create(&h, C_2D, R_ENC, sid) != 0 || !h) { if (g_status) g_status->in_call = 0; return nullptr; }
+        ad_params p{f.k, f.r, (f.k + 7) / 8, 0, 0, 0};
+        std::shared_ptr<BinCode> code;
+        if (ad_set_params(h, C_2D, &p, 0, sid) == 0) {
+            uint32_t E = p.E, n = f.k + f.r;
+            std::vector<AppBuf> bufs(n);
+            void **tab = (void **)malloc(sizeof(void *) * n);
+            for (uint32_t i = 0; i < n; i++) {
+                std::vector<uint8_t> c(E, 0);
+                if (i < f.k) c[i / 8] = (uint8_t)(1u << (i % 8));
+                bufs[i] = app_alloc(E, 0, c.data()); tab[i] = bufs[i].p;
+            }
+            bool ok = true;
+            for (uint32_t j = 0; j < f.r && ok; j++) ok = ad_build(h, tab, f.k + j, sid) == 0;
+            res.lib_calls += 2 + f.r;
+            if (ok) {
+                code = std::make_shared<BinCode>();
+                code->k = f.k; code->r = f.r; code->rows.assign(f.r, {});
+                for (uint32_t j = 0; j < f.r; j++) {
+                    for (uint32_t i = 0; i < f.k; i++) if (bufs[f.k + j].p[i / 8] & (1u << (i % 8))) code->rows[j].push_back(i);
+                    code->rows[j].push_back(f.k + j);
+                }
+                code->finish();
+                std::string why = product_structure_defect(*code);
+                if (!why.empty()) viol({"C16"}, "structure", "not-a-product-single-parity-code", why + " (k=" + std::to_string(f.k) + " r=" + std::to_string(f.r) + ")", nullptr);
+                else count("2d_structure_verified");
+            } else viol({"C16"}, "enc", "build-status:codec=2d", "probe encoder", nullptr);
+            for (auto &b : bufs) app_free(b);
+            free(tab);
+        }
+        ad_release(h, sid);
+        if (g_status) g_status->in_call = 0;
+        for (auto &le : ledger_live_of(sid)) viol({"C16"}, "leak", "site=" + le.site + ":codec=2d", "probe encoder", nullptr);
+        return code;
+    }
+
+    static std::string product_structure_defect(const BinCode &c) {
+        uint32_t k = c.k, r = c.r;
+        for (uint32_t s = 0; s < k; s++) if (c.cols[s].size() != 2) return "source " + std::to_string(s) + " belongs to " + std::to_string(c.cols[s].size()) + " checks";
+        auto srcs = [&](uint32_t j) { std::vector<uint32_t> v; for (uint32_t e : c.rows[j]) if (e < k) v.push_back(e); return v; };
+        auto inter = [&](uint32_t a, uint32_t b) { auto x = srcs(a), y = srcs(b); size_t n = 0; for (uint32_t e : x) if (std::find(y.begin(), y.end(), e) != y.end()) n++; return n; };
+        std::vector<int> cls(r, 0);
+        for (uint32_t j = 1; j < r; j++) cls[j] = inter(0, j) > 0 ? 1 : 0;
+        for (int which = 0; which < 2; which++) {
+            std::vector<int> seen(k, 0);
+            for (uint32_t j = 0; j < r; j++) if (cls[j] == which) for (uint32_t e : srcs(j)) seen[e]++;
+            for (uint32_t s = 0; s < k; s++) if (seen[s] != 1) return "the check families do not each partition the sources (source " + std::to_string(s) + ")";
+        }
+        size_t na = 0, nb = 0;
+        for (uint32_t j = 0; j < r; j++) (cls[j] ? nb : na)++;
+        if (na * nb != k || na + nb != r) return "family sizes " + std::to_string(na) + " x " + std::to_string(nb) + " do not match k";
+        for (uint32_t a = 0; a < r; a++) for (uint32_t b = a + 1; b < r; b++) {
+            size_t n = inter(a, b);
+            if (cls[a] == cls[b] && n != 0) return "two checks of one family share a source";
+            if (cls[a] != cls[b] && n != 1) return "a row check and a column check share " + std::to_string(n) + " sources";
+        }
+        for (uint32_t j = 0; j < r; j++) { size_t reps = 0; for (uint32_t e : c.rows[j]) if (e >= k) reps++; if (reps != 1) return "check without its own repair symbol"; }
+        return "";
     }
 
     const std::vector<uint8_t> &ref_symbol(FlowCtx &fc, uint32_t esi) {
